@@ -49,9 +49,77 @@ var errC11Open = errors.New("verif: transient stream-open failure")
 var c11LastState *resolver.State
 var c11Updates int
 
+// c11AnnounceDial: the gRPC channel reacts to a resolver update by connecting to the announced
+// endpoints on its own goroutines, which may run at any point after the update was pushed
+var c11AnnounceDial func(ctx context.Context, addr string) (net.Conn, error)
+var c11AnnounceMiss int
+var c11AnnouncePending []chan struct{}
+
 func verifStub_resolverUpdateState(r *manual.Resolver, s resolver.State) {
 	c11LastState = &s
 	c11Updates++
+	if c11AnnounceDial != nil {
+		var addrs []string
+		for _, ep := range s.Endpoints {
+			for _, a := range ep.Addresses {
+				addrs = append(addrs, a.Addr)
+			}
+		}
+		sort.Strings(addrs)
+		done := make(chan struct{})
+		c11AnnouncePending = append(c11AnnouncePending, done)
+		go func() {
+			for _, a := range addrs {
+				if _, err := c11AnnounceDial(context.Background(), a); err != nil {
+					c11AnnounceMiss++
+				}
+			}
+			close(done)
+		}()
+	}
+}
+
+// verifHarness_C11_announce: calls resume when a new session appears — every endpoint the channel
+// has been told about is dialable from the moment it was told (the channel connects at once, on its
+// own goroutine; a refused dial parks the new endpoint in connection back-off).
+func verifHarness_C11_announce() {
+	verifConfig("preempt", verifParam("preempt", 1))
+	nSteps := verifParam("updates", 3)
+	mcc := &MultiClientConn{lifetime: context.Background(), name: "verif", resolver: manual.NewBuilderWithScheme(scheme)}
+	c11AnnounceDial = mcc.getMapDialer()
+	c11AnnounceMiss, c11AnnouncePending = 0, nil
+	table := map[string]session.ManagedMuxSession{}
+	idNames := []string{"0", "1", "2", "3", "4", "5", "6", "7"}
+	nextID := 0
+	for step := 0; step < nSteps; step++ {
+		if len(table) == 0 || verifChoose("update", 2) == 0 {
+			verifAction("add-session")
+			id := idNames[nextID]
+			nextID++
+			table[id] = &c11Sess{id: id}
+		} else {
+			verifAction("remove-session")
+			var ids []string
+			for k := range table {
+				ids = append(ids, k)
+			}
+			sort.Strings(ids)
+			delete(table, ids[verifChoose("which", len(ids))])
+			if len(table) == 0 {
+				verifReach("empty-set")
+			}
+		}
+		mcc.OnConnectionListUpdate(table)
+		for _, d := range c11AnnouncePending {
+			<-d
+		}
+		c11AnnouncePending = nil
+		verifAssert(c11AnnounceMiss == 0, "every-endpoint-announced-to-the-channel-is-dialable-from-the-moment-it-is-announced")
+		if c11AnnounceMiss != 0 {
+			return
+		}
+	}
+	verifReach("done")
 }
 
 func c11Keys(m map[string]func() (net.Conn, error)) []string {
